@@ -40,7 +40,10 @@ func blahut_naive_compute_r(channel, q [][]float64, r []float64) {
   for i := 0; i < n; i++ {
     r[i] = 0.0
     for j := 0; j < m; j++ {
-      r[i] += channel[i][j]*math.Log(q[j][i])
+      // 0 log q = 0
+      if channel[i][j] != 0.0 {
+        r[i] += channel[i][j]*math.Log(q[j][i])
+      }
     }
     r[i] = math.Exp(r[i])
   }
